@@ -86,58 +86,63 @@ def readThroughSegment (file : Bytes) : HdrInfo × List (FrameHeader × Nat) :=
 
 /-! ## recovery (`recoverTail`) -/
 
+/-- a commit frame met by the recovery scan -/
 structure CommitInfo where
   crc        : Nat
   offset     : Nat
-  crcStart   : Nat
-  offsetsLen : Nat
+  crcStart   : Nat     -- end of the previous commit frame in scan order (0 for the first: the CRC covers the file header)
+  offsetsLen : Nat     -- entry frames seen up to this commit
+  indexStart : Nat     -- start of an index array seen since the previous commit (0: none)
   deriving Repr, DecidableEq, Inhabited
 
 structure RecAcc where
-  offsets     : List Nat := []     -- reversed
-  indexStart  : Nat := 0
-  prevCommit  : Option CommitInfo := none
-  finalCommit : Option CommitInfo := none
+  offsets      : List Nat := []     -- reversed
+  pendingIndex : Nat := 0
+  crcStart     : Nat := 0
+  commits      : List CommitInfo := []   -- reversed: most recent first
   deriving Repr, Inhabited
 
 def recStep (a : RecAcc) (f : FrameHeader × Nat) : RecAcc :=
   let (fh, off) := f
   if fh.typ = frameEntry then { a with offsets := u32 off :: a.offsets }
-  else if fh.typ = frameIndex then { a with indexStart := off + frameHeaderLen }
+  else if fh.typ = frameIndex then { a with pendingIndex := off + frameHeaderLen }
   else if fh.typ = frameCommit then
-    let crcStart := match a.finalCommit with
-      | none => 0
-      | some p => p.offset + frameHeaderLen
-    { a with prevCommit := a.finalCommit
-           , finalCommit := some { crc := fh.crc, offset := off, crcStart := crcStart, offsetsLen := a.offsets.length } }
+    { a with commits := { crc := fh.crc, offset := off, crcStart := a.crcStart, offsetsLen := a.offsets.length,
+                          indexStart := a.pendingIndex } :: a.commits
+           , crcStart := off + frameHeaderLen
+           , pendingIndex := 0 }
   else a
 
 def commitIdxOf (base : Nat) (offsets : List Nat) : Nat :=
   if offsets.length > 0 then base + offsets.length - 1 else 0
 
-/-- `recoverFile` on the content of the tail file. -/
-def recoverTail (info : SegInfo) (file : Bytes) : Except SegErr Writer :=
+/-- does the batch a commit frame closes validate against its CRC? -/
+def commitValid (file : Bytes) (c : CommitInfo) : Bool :=
+  let batch := readAt file c.crcStart (c.offset - c.crcStart)
+  batch.length = c.offset - c.crcStart ∧ (crc32c batch).toNat = c.crc
+
+/-- `clearStaleTail`: everything behind the recovered write offset is zeroed -/
+def clearStale (file : Bytes) (writeOffset : Nat) : Bytes :=
+  file.take writeOffset ++ zeros (file.length - writeOffset)
+
+/-- `recoverFile` on the content of the tail file: the writer and the file as recovery leaves it
+    (stale bytes behind the recovered tail are zeroed and synced). -/
+def recoverTail (info : SegInfo) (file : Bytes) : Except SegErr (Writer × Bytes) :=
   let (hdr, frames) := readThroughSegment file
   let a := frames.foldl recStep {}
   let offsets := a.offsets.reverse
-  let w0 : Writer := { Writer.fresh info with indexStart := a.indexStart }
-  match a.finalCommit with
-  | none => .ok w0.initEmpty
-  | some fc =>
-    let finish (w : Writer) : Except SegErr Writer :=
-      if validateFileHeader hdr info.hdr then .ok { w with commitIdx := commitIdxOf info.base w.offsets }
-      else .error .corrupt
-    let w := { w0 with writeOffset := u32 (fc.offset + frameHeaderLen) }
-    if fc.offsetsLen < offsets.length then
-      finish { w with offsets := offsets.take fc.offsetsLen }
-    else
-      let batch := readAt file fc.crcStart (fc.offset - fc.crcStart)
-      if batch.length < fc.offset - fc.crcStart then .error .io
-      else if (crc32c batch).toNat = fc.crc then finish { w with offsets := offsets }
-      else match a.prevCommit with
-        | none => .ok ({ w with offsets := offsets }.initEmpty)
-        | some pc =>
-          finish { w with writeOffset := u32 (pc.offset + frameHeaderLen), offsets := offsets.take pc.offsetsLen }
+  -- the last commit (in scan order) whose batch is completely on disk
+  match a.commits.find? (commitValid file) with
+  | none =>
+    let w := (Writer.fresh info).initEmpty
+    .ok (w, clearStale file 0)
+  | some c =>
+    let w : Writer := { Writer.fresh info with
+                          writeOffset := u32 (c.offset + frameHeaderLen), indexStart := c.indexStart,
+                          offsets := offsets.take c.offsetsLen }
+    let w := { w with commitIdx := commitIdxOf info.base w.offsets }
+    if validateFileHeader hdr info.hdr then .ok (w, clearStale file w.writeOffset)
+    else .error .corrupt
 
 /-! ## appending -/
 
